@@ -58,6 +58,7 @@ fn model(log: &[Rec], setups: &[Setup], preload_empty: bool, m: &mut Mon) {
     let mut attempts_metric_seen = false;
     let mut first_seen_metric_seen = false;
     let mut attempt_plan: Option<String> = None;
+    let mut await_commit = false;
     let autotick = log.iter().any(|r| matches!(r.ev, Ev::ClockRead { .. }));
 
     let end_incarnation = |m: &mut Mon, expect_report: bool, record_at_start: &Option<(i64, String)>, reported: usize, start_wall: Option<i128>, passed: bool, clean: bool, durable: &Book, crashed_early: bool, missed: bool, cleared_judgeable: bool| {
@@ -161,6 +162,7 @@ fn model(log: &[Rec], setups: &[Setup], preload_empty: bool, m: &mut Mon) {
                 built = false;
                 in_install = false;
                 await_finish_read = false;
+                await_commit = false;
                 attempt_plan = None;
             }
             Ev::PolicyCanStart { plan_id, answer: UpdDec::Ok } => {
@@ -176,7 +178,7 @@ fn model(log: &[Rec], setups: &[Setup], preload_empty: bool, m: &mut Mon) {
                     }
                 }
                 durable = mem.clone();
-                if in_install && no_failed && finish.is_some() {
+                if await_commit && finish.is_some() {
                     let fin_ok = matches!(snapshot.get("update_finish_time"), Some(Val::I(v)) if Some(*v as i128) == finish.map(|f| f / 1000));
                     let tv = match snapshot.get("target_version") {
                         Some(Val::S(s)) => Some(s.clone()),
@@ -224,6 +226,7 @@ fn model(log: &[Rec], setups: &[Setup], preload_empty: bool, m: &mut Mon) {
                 in_install = true;
                 finish = None;
                 finish_committed = false;
+                await_commit = false;
                 attempts_metric_seen = false;
                 first_seen_metric_seen = false;
             }
@@ -243,6 +246,7 @@ fn model(log: &[Rec], setups: &[Setup], preload_empty: bool, m: &mut Mon) {
                 if no_failed {
                     clean_install_in_inc = true;
                 }
+                await_commit = no_failed;
             }
             Ev::Metric(MetricSnap::SuccessfulUpdateFromFirstSeen(d)) => {
                 first_seen_metric_seen = true;
@@ -252,16 +256,14 @@ fn model(log: &[Rec], setups: &[Setup], preload_empty: bool, m: &mut Mon) {
                     });
                 }
             }
-            Ev::PolicyRebootNeeded { .. } | Ev::Reboot => {
-                if in_install && no_failed {
-                    m.judge("c18-finish-and-target-committed-before-reboot", finish_committed, if matches!(r.ev, Ev::Reboot) { "reboot" } else { "reboot-question" }, || {
-                        format!("at seq {} ({:?}) the finish time {:?} / target version {:?} had not been committed", r.seq, r.ev, finish.map(|f| f / 1000), expect_target)
+            Ev::Reboot => {
+                // "before any reboot is attempted": judged at perform_reboot (committing only after the
+                // reboot_needed question, e.g. with the end-of-check commit, still satisfies the statement)
+                if await_commit {
+                    m.judge("c18-finish-and-target-committed-before-reboot", finish_committed, "reboot", || {
+                        format!("at seq {} (perform_reboot) the finish time {:?} / target version {:?} had not been committed", r.seq, finish.map(|f| f / 1000), expect_target)
                     });
-                    if let (Some(f), Some(fs)) = (finish, first_seen) {
-                        if f >= fs && matches!(r.ev, Ev::PolicyRebootNeeded { .. }) {
-                            m.judge("c18-first-seen-metric-reported", first_seen_metric_seen, "", || "install without failed app finished but SuccessfulUpdateFromFirstSeen was not reported".into());
-                        }
-                    }
+                    await_commit = false;
                 }
             }
             Ev::Metric(MetricSnap::AttemptsToSuccessfulInstall { count, ok }) => {
@@ -273,6 +275,13 @@ fn model(log: &[Rec], setups: &[Setup], preload_empty: bool, m: &mut Mon) {
                 mem.failed_installs = if *ok { 0 } else { want };
             }
             Ev::Taken(EvSnap::Result(_)) => {
+                if in_install && no_failed {
+                    if let (Some(f), Some(fs)) = (finish, first_seen) {
+                        if f >= fs {
+                            m.judge("c18-first-seen-metric-reported", first_seen_metric_seen, "", || "install without failed app finished but SuccessfulUpdateFromFirstSeen was not reported".into());
+                        }
+                    }
+                }
                 if in_install && finish.is_some() {
                     m.judge("c18-attempts-reported-iff-counted", attempts_metric_seen == any_counted, if any_counted { "missing" } else { "spurious" }, || {
                         format!("install with counted result={} but AttemptsToSuccessfulInstall reported={}", any_counted, attempts_metric_seen)
